@@ -28,7 +28,7 @@ def parse_wheel_tags(filename: str) -> tuple[list[str], list[str], list[str]]:
             f"Invalid wheel filename (wrong number of parts): {filename}"
         )
 
-    parts = filename.split("-")
+    parts = filename.lower().split("-")
     python, abi, platform = parts[-3:]
     return python.split("."), abi.split("."), platform.split(".")
 
